@@ -48,6 +48,7 @@ type RouteProfile struct {
 	CheckC02End bool // exactly-once / conservation at the end (no-failure profiles only)
 	Cleanup     bool // judge the C08 end-of-run cleanup
 	CheckC05    bool // in-system ack translation oracle (no-failure profiles)
+	BadMetadata bool // C20 in routing mode: hostile stream-open metadata next to the regular streams
 }
 
 // RouteConfig is the per-run configuration, drawn from the tape first.
@@ -192,6 +193,18 @@ type RouteWorld struct {
 	// which stream incarnation made the last registration call of each kind for each shard
 	lastReg   map[string]map[ShardID]string
 	lastRegAt map[ShardID]time.Time
+	badOpens  []*badOpen
+	badLeft   int
+}
+
+// badOpen is one stream opened with hostile metadata (C20, routing mode).
+type badOpen struct {
+	name   string
+	md     map[string]string
+	st     *simio.Stream
+	cancel context.CancelFunc
+	done   bool
+	err    error
 }
 
 const (
@@ -259,6 +272,9 @@ func NewRouteWorld(s *simrt.Sim, prof RouteProfile) *RouteWorld {
 	w.cfg = drawRouteConfig(s, prof)
 	s.SetPKeep(w.cfg.PKeep)
 	w.faultsLeft = w.cfg.FaultBudget
+	if prof.BadMetadata {
+		w.badLeft = 2 + s.Draw(4)
+	}
 	s.SetKnobFn(func(site, def int) int {
 		n := simrt.SiteName(site)
 		switch {
@@ -634,6 +650,69 @@ func (w *RouteWorld) tgtOpen(sh *shardModel) {
 	})
 }
 
+// openBad opens a stream with hostile cluster/shard metadata on one of the two servers,
+// optionally marked as an intra-proxy stream.
+func (w *RouteWorld) openBad() {
+	w.badLeft--
+	w.nextSt++
+	// the initiator's own shard id is one no regular stream uses, so that a hostile open does
+	// not simply act as a second incarnation of a regular stream (that is C08's subject)
+	own := strconv.Itoa(1000 + len(w.badOpens))
+	md := map[string]string{
+		history.MetadataKeyClientClusterID: "1", history.MetadataKeyClientShardID: own,
+		history.MetadataKeyServerClusterID: "2", history.MetadataKeyServerShardID: "1",
+	}
+	srv := w.outbound
+	if w.s.Draw(2) == 1 {
+		srv = w.inbound
+		md[history.MetadataKeyClientClusterID], md[history.MetadataKeyServerClusterID] = "2", "1"
+	}
+	keys := []string{history.MetadataKeyServerShardID, history.MetadataKeyClientShardID, history.MetadataKeyServerClusterID, history.MetadataKeyClientClusterID}
+	for i, n := 0, 1+w.s.Draw(2); i < n; i++ {
+		k := keys[w.s.Draw(len(keys))]
+		var v string
+		switch w.s.Draw(4) {
+		case 0, 1:
+			v = badShardValues[w.s.Draw(len(badShardValues))]
+		case 2:
+			v = strconv.Itoa(238609294 + w.s.Draw(1<<30))
+		default:
+			v = strconv.Itoa(-1 - w.s.Draw(1<<30))
+		}
+		// a client shard id that (after the decoder's int32 truncation) equals a regular shard's
+		// id would make the hostile stream a second incarnation of that shard's stream - C08's
+		// subject, not C20's - so such values are skipped for this one key
+		if k == history.MetadataKeyClientShardID {
+			if n, err := strconv.ParseInt(strings.TrimSpace(v), 0, 64); err == nil && int32(n) >= 1 && int32(n) <= 8 {
+				continue
+			}
+		}
+		if v == "" {
+			delete(md, k)
+		} else {
+			md[k] = v
+		}
+	}
+	if w.s.Draw(4) == 0 {
+		md["x-s2s-intra-proxy"] = "1"
+		md["x-s2s-origin-proxy-id"] = "peer-x"
+	}
+	var pairs []string
+	for _, k := range sortedKeys(md) {
+		pairs = append(pairs, k, md[k])
+	}
+	ctx, cancel := context.WithCancel(metadata.NewOutgoingContext(context.Background(), metadata.Pairs(pairs...)))
+	b := &badOpen{name: fmt.Sprintf("bad%d", len(w.badOpens)+1), md: md, cancel: cancel}
+	b.st = simio.NewStream(b.name, w.nextSt, ctx, 4)
+	w.badOpens = append(w.badOpens, b)
+	w.s.Log("hostile open %s md=%v", b.name, md)
+	w.s.Spawn("handler:"+b.name, func() {
+		b.err = srv.StreamWorkflowReplicationMessages(simio.ServerEnd{S: b.st})
+		b.st.ServerFinish(b.err)
+		b.done = true
+	})
+}
+
 // staleRegisteredLate: the last registration call of the given kind for this shard was made
 // by the goroutines of an OLDER incarnation of its stream than the newest one - the server
 // runs the incarnations' goroutines concurrently and nothing orders their registrations, so
@@ -803,6 +882,17 @@ func (w *RouteWorld) Actions() []simrt.Action {
 	now := w.s.Now()
 	tail := w.phase == 1
 	closing := w.phase == 2
+	if w.prof.BadMetadata && w.badLeft > 0 && w.phase == 0 {
+		add("bad-open", 3, false, w.openBad)
+	}
+	if closing {
+		for _, b := range w.badOpens {
+			b := b
+			if !b.done && b.st.ClientCtx().Err() == nil {
+				add("close bad:"+b.name, 5, false, func() { b.cancel() })
+			}
+		}
+	}
 	for _, sh := range w.allShards() {
 		sh := sh
 		// --- target role ---
@@ -1322,6 +1412,9 @@ func RunRoute(s *simrt.Sim, prof RouteProfile) *Result {
 		res.Crash = s.Crashed()
 		if res.Crash != nil {
 			w.violate("C08", "crash", "unrecovered panic in %s: %s", res.Crash.Task, res.Crash.Value)
+			if prof.BadMetadata {
+				w.violate("C20", "crash", "unrecovered panic in %s: %s", res.Crash.Task, res.Crash.Value)
+			}
 			res.Violations = w.viol
 		}
 		res.Nontrivial = w.msgsToTgt > 0 && w.acksToSrc > 0 && (!prof.Faults || w.anyFault)
@@ -1345,6 +1438,13 @@ func RunRoute(s *simrt.Sim, prof RouteProfile) *Result {
 	w.tailOK = w.tailSatisfied()
 	if prof.Liveness && !w.anyFault && !w.tailOK {
 		w.violate("C03", "liveness", "after %v of fault-free fair execution not every source was acked up to its final high watermark: %s", s.Now()-w.tailStart, w.tailStatus())
+	}
+	if prof.BadMetadata && !w.anyFault && !w.tailOK {
+		var mds []string
+		for _, b := range w.badOpens {
+			mds = append(mds, fmt.Sprintf("%s:%v(done=%v err=%v)", b.name, b.md, b.done, b.err))
+		}
+		w.violate("C20", "later-streams-not-served", "after streams were opened with hostile metadata %v, %v of fault-free fair execution did not serve the regular streams: %s; live tasks: %v", mds, s.Now()-w.tailStart, w.tailStatus(), s.LiveTasks())
 	}
 	w.endChecks()
 	w.registryChecks()
